@@ -319,8 +319,18 @@ def mk_Gridding(rng, ishape, maxn):
 def mk_Resize(rng, ishape, maxn):
     ishape = ishape or _shape(rng, int(rng.integers(1, 4)), maxn)
     oshape = [max(1, int(s + rng.integers(-3, 4))) for s in ishape]
-    mode = pick(rng, ["none", "none", "both", "ishift", "oshift"])
+    mode = pick(rng, ["none", "none", "both", "ishift", "oshift", "pad-overhang"])
     ishift = oshift = None
+    if mode == "pad-overhang":
+        # zero-padding on every axis, default input shift, and an explicit output shift that
+        # lets the input overhang the end of the output (so part of it is cut off)
+        oshape = [int(s + rng.integers(0, 4)) for s in ishape]
+        oshift = [int(rng.integers(max(o - i, 0), o + 1)) for i, o in zip(ishape, oshape)]
+        k = int(rng.integers(len(ishape)))
+        oshift[k] = int(rng.integers(max(oshape[k] - ishape[k], 0) + 1, oshape[k] + 1)) \
+            if ishape[k] > 0 else oshift[k]
+        return {"op": "Resize", "ishape": ishape, "oshape": oshape, "ishift": None,
+                "oshift": oshift}
     if mode in ("both", "ishift"):
         ishift = [int(rng.integers(0, i + 1)) for i in ishape]
     if mode in ("both", "oshift"):
@@ -715,6 +725,24 @@ MAKERS = {
     "PtxSpatialExplicit": mk_Ptx, "ToDevice": mk_ToDevice, "AllReduce": mk_AllReduce,
 }
 LEAF_KINDS = list(MAKERS)
+# kinds that capture parameter arrays (multiplier, matrix, filter, coil maps, weights)
+ARRAY_KINDS = ["Multiply", "MatMul", "RightMatMul", "ConvolveData", "ConvolveFilter", "Sense",
+               "ConvSense", "ConvImage", "PtxSpatialExplicit"]
+
+
+def gen_struct_leaf(rng, kind, maxn=6):
+    """A leaf of an array-capturing kind whose parameter arrays are *structured* (see _arr:
+    unit modulus, +-1 / +-i, all ones, constant, one-hot), by moving its seed into the
+    matching residue class."""
+    for _ in range(40):
+        d = MAKERS[kind](rng, None, maxn)
+        if d is None or "aseed" not in d:
+            continue
+        if kind == "Multiply" and d.get("mkind") != "array":
+            continue
+        d["aseed"] = int(d["aseed"] - d["aseed"] % 11 + int(rng.integers(1, 6)))
+        return d
+    return None
 # kinds that can be generated for a prescribed input shape (used inside trees)
 ADAPTABLE = ["Identity", "ToDevice", "AllReduce", "Reshape", "Transpose", "FFT", "IFFT", "MatMul", "RightMatMul",
              "Multiply", "Interpolate", "Gridding", "Resize", "Flip", "Downsample",
